@@ -96,6 +96,14 @@ impl Report {
         let mut new_violations = 0;
         let mut replay_paths = vec![];
         let rdir = verif_dir().join("replays").join(&self.property);
+        if let Ok(rd) = std::fs::read_dir(&rdir) {
+            for e in rd.flatten() {
+                let n = e.file_name().to_string_lossy().to_string();
+                if n.starts_with(&format!("{}-", self.tier)) {
+                    let _ = std::fs::remove_file(e.path());
+                }
+            }
+        }
         for v in &self.violations {
             if let Some(f) = findings.iter().find(|f| matches(f, &self.property, &v.key)) {
                 *known_hit.entry(f.what.clone()).or_insert(0) += v.count;
